@@ -602,13 +602,14 @@ class Program(object):
             arity = [c for c in cands if len(c.params) == nargs or
                      (len(c.params) > nargs and all('default' in p for p in c.params[nargs:]))]
             if len(arity) > 1:
-                want = [_decay(t) for t in cal['targs'][1:]]
-                best = [c for c in arity if [_decay(p['type']) for p in c.params[:nargs]] == want[:nargs]]
+                from .sem import split_sig
+                want = [_normtype(t) for t in split_sig(cal.get('sig', '()'))]
+                best = [c for c in arity if [_normtype(p['type']) for p in c.params[:nargs]] == want[:nargs]]
                 if best:
                     arity = best
                 else:
                     def score(c):
-                        return sum(1 for p, w in zip(c.params, want) if _decay(p['type']) == w)
+                        return sum(1 for p, w in zip(c.params, want) if _normtype(p['type']) == w)
                     m = max(score(c) for c in arity)
                     arity = [c for c in arity if score(c) == m]
             out += arity
@@ -672,6 +673,14 @@ class Program(object):
                             cs[tgt.usr].append((f, n))
             self._callers = cs
         return self._callers
+
+
+def _normtype(t):
+    t = _decay(t)
+    for pre in ('nix::base::', 'nix::hdf5::', 'nix::', 'base::', 'hdf5::', 'std::__cxx11::', 'std::', 'const '):
+        t = t.replace(pre, '')
+    t = t.replace('basic_string<char>', 'string').replace('unsigned long long', 'ull').replace('unsigned long', 'ul').replace('long', 'l')
+    return t.replace(' ', '')
 
 
 def _decay(t):
